@@ -120,9 +120,9 @@ CHECKS.update({
 })
 CHECKS.update({
  "C19": dict(
-   technique="stateless exploration of thread interleavings of the real compiler under a hand-rolled controlled (baton) scheduler with scheduling points (cfg-guarded hooks) before every access to process-global shared state; preemption-bounded (0, 1, partially 2) (shape S)",
-   text="Two OS threads each compile and run one program from a menu built to collide (identical sources, shared identifiers, syntax error, type error, macro expansion, a 64 KiB identifier, type declarations); only one thread runs at a time and control can change hands only at scheduling points placed before every use of the interner, the macro-file environment variable and the diagnostics file cache. Both serial orders and every single preemption (quick: at every 16th point; thorough: at every point, plus a sparse second preemption) are executed; in every schedule each thread must obtain exactly the diagnostics and outputs it obtains alone, with no panic and no deadlock.",
-   note="Sequentially consistent interleavings at hook granularity only; loom/shuttle cannot intercept std::sync inside mimium-lang and do not finish on ~7000 lock operations per job, hence the hand-rolled scheduler. Unsynchronised memory effects (the transmuted &str from Symbol::as_str vs. reallocation of the interner buffer) cannot be observed by a cooperative scheduler; the thorough tier therefore re-executes the quick-bound schedule set under an AddressSanitizer build (nightly, offline; self-tested on a probe of exactly that pattern; evidence in C19-asan.json), which reports such an access if an explored schedule performs it. Point numbering jitters slightly between executions (HashMap seeds).",
+   technique="stateless exploration of thread interleavings of the real compiler under a hand-rolled controlled (baton) scheduler with scheduling points (cfg-guarded hooks) before every access to process-global shared state; preemption-bounded (0, 1, partially 2); every schedule executed in a fork of one frozen process state with harness-owned hash seeds, so schedules replay exactly (shape S)",
+   text="Two OS threads each compile and run one program from a menu built to collide (identical sources, shared identifiers, syntax error, type error, macro expansion, a 64 KiB identifier, type declarations, two macro programs whose main-stage code goes through the staging translation with a nested resp. flat tuple let); only one thread runs at a time and control can change hands only at scheduling points placed before every use of the interner, the macro-file environment variable and the diagnostics file cache. Both serial orders and every single preemption (quick: at every 16th point; thorough: at every point, plus a sparse second preemption) are executed; in every schedule each thread must obtain exactly the diagnostics and outputs it obtains alone, with no panic and no deadlock.",
+   note="Sequentially consistent interleavings at hook granularity only; loom/shuttle cannot intercept std::sync inside mimium-lang and do not finish on ~7000 lock operations per job, hence the hand-rolled scheduler. Unsynchronised memory effects (the transmuted &str from Symbol::as_str vs. reallocation of the interner buffer) cannot be observed by a cooperative scheduler; the thorough tier therefore re-executes the quick-bound schedule set under an AddressSanitizer build (nightly, offline; self-tested on a probe of exactly that pattern; evidence in C19-asan.json), which reports such an access if an explored schedule performs it. Each schedule runs in a forked copy of the warmed-up worker with getrandom interposed (VERIF_DET_RANDOM), so scheduling-point numbers are exact and a violation replays point for point.",
    thorough_cmd="./check C19 --tier thorough && ./check C19 --asan",
    design="4/C19"),
 })
